@@ -197,7 +197,11 @@ pub fn run(t: &mut Toks) -> String {
                             let again = c.clone().discard_faces().with_faces();
                             let same = (0..c.face_count()).all(|fi| c.face_vertices(fi) == again.face_vertices(fi))
                                 && c.face_count() == again.face_count();
-                            format!("{{\"faces\":[{}],\"verts\":{},\"roundtrip\":{}}}", faces.join(","), verts, same)
+                            // a copy of a cell with faces is a cell with faces: same face data through the unchecked accessors
+                            let copy = c.clone();
+                            let clone_ok = copy.face_count() == c.face_count()
+                                && (0..c.face_count()).all(|fi| copy.face_vertices(fi) == c.face_vertices(fi) && copy.neighbour(fi) == c.neighbour(fi));
+                            format!("{{\"faces\":[{}],\"verts\":{},\"roundtrip\":{},\"clone\":{}}}", faces.join(","), verts, same, clone_ok)
                         }
                     })
                     .collect();
